@@ -1,6 +1,7 @@
 // @id C19.pr_params
 // @engine B
 // @entry vfh_C19_pr_params
+// @shared_state_watch
 // @tier Q
 // @reach pr_params.returned
 // @funcs Phreeqc::calc_PR
@@ -11,6 +12,7 @@
 // @id C19.pr_eos
 // @engine B
 // @entry vfh_C19_pr_eos
+// @shared_state_watch
 // @tier Q
 // @reach pr_eos.returned
 // @funcs Phreeqc::calc_PR
